@@ -157,6 +157,55 @@ pub fn check_tail(c: &TailCase) -> CheckResult {
     ok(c.tail >= 3 * CS as u64, format!("{:?}/tail{}", c.mode, if c.tail >= 1 << 20 { ">=1MiB" } else { "<1MiB" }))
 }
 
+/// A sink that buffers like `std::io::BufWriter` (what a caller wraps a file or socket in): bytes count as delivered only
+/// when the buffer overflows or `flush` is called. The incremental-output bound is about what has reached the sink.
+#[derive(Clone, Debug, Serialize, Deserialize)]
+pub struct BufCase { pub size: usize, pub pass: bool, pub cap: usize, pub decrypt: bool, pub seed: u64 }
+struct BufSink { cap: usize, pending: usize, delivered: Arc<std::sync::atomic::AtomicU64>, flushes: u64 }
+impl Write for BufSink {
+    fn write(&mut self, b: &[u8]) -> io::Result<usize> {
+        if self.pending + b.len() > self.cap { self.delivered.fetch_add(self.pending as u64, std::sync::atomic::Ordering::SeqCst); self.pending = 0; }
+        if b.len() >= self.cap { self.delivered.fetch_add(b.len() as u64, std::sync::atomic::Ordering::SeqCst); } else { self.pending += b.len(); }
+        Ok(b.len())
+    }
+    fn flush(&mut self) -> io::Result<()> { self.flushes += 1; self.delivered.fetch_add(self.pending as u64, std::sync::atomic::Ordering::SeqCst); self.pending = 0; Ok(()) }
+}
+struct LagReader<'a> { data: &'a [u8], pos: usize, hdr: usize, delivered: Arc<std::sync::atomic::AtomicU64>, lag_violation: Option<String> }
+impl<'a> Read for LagReader<'a> {
+    fn read(&mut self, b: &mut [u8]) -> io::Result<usize> {
+        if self.pos >= self.hdr && self.lag_violation.is_none() {
+            let m = ((self.pos - self.hdr) / (CS + 32)) as u64;
+            if m >= 3 { let need = (m - 2) * CS as u64; let have = self.delivered.load(std::sync::atomic::Ordering::SeqCst);
+                if have < need { self.lag_violation = Some(format!("decryption into a buffering sink had consumed {} ciphertext records but only {} plaintext bytes had reached the sink (chunk {} ends at byte {})", m, have, m - 3, need)); } }
+        }
+        let n = b.len().min(self.data.len() - self.pos); b[..n].copy_from_slice(&self.data[self.pos..self.pos + n]); self.pos += n; Ok(n)
+    }
+}
+pub fn check_buffered(c: &BufCase) -> CheckResult {
+    let s = kx::ident(c.seed, "S"); let r = kx::ident(c.seed, "R"); let hdr: u64 = if c.pass { 36 } else { 132 };
+    let delivered = Arc::new(std::sync::atomic::AtomicU64::new(0));
+    let mut sink = BufSink { cap: c.cap, pending: 0, delivered: delivered.clone(), flushes: 0 };
+    if !c.decrypt {
+        let mut src = Source { seed: c.seed | 1, size: c.size as u64, pos: 0, var: 0, calls: 0, written: delivered.clone(), hdr, lag_violation: None, nchunks: 0, ends: [0; 8], last_end: hdr };
+        let (ssk, spk, rpk) = (kx::sk(&s.sk), kx::pk(&s.pk), kx::pk(&r.pk));
+        let res: Result<(), String> = if c.pass { kc::encrypt::pass_encrypt(&mut src, &mut sink, PW, gen::key32(c.seed, "salt"), kc::PassFileFormat::V1).map_err(|e| e.to_string()) } else { kc::encrypt::key_encrypt(&mut src, &mut sink, &ssk, &spk, &rpk, None, None, None, kc::AsymFileFormat::V1).map_err(|e| e.to_string()) };
+        res.map_err(|e| format!("encryption into a buffering sink failed: {}", e))?;
+        if let Some(l) = src.lag_violation { return Err(format!("buffering sink of {} bytes: {}", c.cap, l)); }
+        let total = c.size as u64 + hdr + 32 * ((c.size as u64 + CS as u64 - 1) / CS as u64).max(1);
+        if delivered.load(std::sync::atomic::Ordering::SeqCst) != total { return Err(format!("encryption returned but only {} of {} output bytes had reached the buffering sink (no final flush)", delivered.load(std::sync::atomic::Ordering::SeqCst), total)); }
+    } else {
+        let plain = gen::bytes_from(c.seed | 1, c.size);
+        let ct = if c.pass { let (res, sh) = kx::pass_encrypt(&plain, &crate::sio::RSched::full(), &crate::sio::WSched::all(), None, PW, gen::key32(c.seed, "salt")); if !res.is_ok() { return Err(format!("{:?}", res)); } sh.sink.take() } else { kx::key_encrypt_simple(&plain, &s, &r.pk, None, None)? };
+        let mut rd = LagReader { data: &ct, pos: 0, hdr: hdr as usize, delivered: delivered.clone(), lag_violation: None };
+        let (rsk, rpk) = (kx::sk(&r.sk), kx::pk(&r.pk));
+        let res: Result<(), String> = if c.pass { kc::decrypt::pass_decrypt(&mut rd, &mut sink, PW, kc::PassFileFormat::V1).map_err(|e| e.to_string()) } else { kc::decrypt::key_decrypt(&mut rd, &mut sink, &rsk, &rpk, kc::AsymFileFormat::V1).map(|_| ()).map_err(|e| e.to_string()) };
+        res.map_err(|e| format!("decryption into a buffering sink failed: {}", e))?;
+        if let Some(l) = rd.lag_violation { return Err(format!("buffering sink of {} bytes: {}", c.cap, l)); }
+        if delivered.load(std::sync::atomic::Ordering::SeqCst) != c.size as u64 { return Err(format!("decryption returned but only {} of {} plaintext bytes had reached the buffering sink (no final flush)", delivered.load(std::sync::atomic::Ordering::SeqCst), c.size)); }
+    }
+    ok(c.size >= 4 * CS && c.cap > 3 * CS, format!("buffered/{}/{}/cap{}", if c.decrypt { "decrypt" } else { "encrypt" }, if c.pass { "pass" } else { "key" }, if c.cap > 3 * CS { ">3chunks" } else { "<=3chunks" }))
+}
+
 /// Process level: the real binary on a large sparse file; peak resident set size (GNU time %M) must not grow with the size.
 #[derive(Clone, Debug, Serialize, Deserialize)]
 pub struct ProcCase { pub mib: u64, pub pass_mode: bool }
@@ -222,7 +271,7 @@ pub fn check_read_ahead(c: &ReadAhead) -> CheckResult {
 }
 
 pub fn run(ctx: &Ctx) {
-    set_rule("C11", "(size from {0, 1, 65535, 65536, 65537, 3*65536, ...} and log-uniform up to the tier bound, mode, read-size pattern): the plaintext is a function of the offset produced on the fly, encryption output is piped through a bounded pre-allocated ring into decryption on a second thread, the final sink compares every buffer with the generator. Oracles: thread-local peak live heap of each library call <= the same call on a 256 KiB input + 128 KiB and <= 4 MiB (+34 MiB with scrypt); with full reads, when more than two further chunks have been consumed the earlier chunk has been written (both directions, inline counters); every byte and the total length arrive intact. Non-trivial = size >= 3 chunks; distinct by (size, mode, pattern)");
+    set_rule("C11", "(size from {0, 1, 65535, 65536, 65537, 3*65536, ...} and log-uniform up to the tier bound, mode, read-size pattern): the plaintext is a function of the offset produced on the fly, encryption output is piped through a bounded pre-allocated ring into decryption on a second thread, the final sink compares every buffer with the generator. Oracles: thread-local peak live heap of each library call <= the same call on a 256 KiB input + 128 KiB and <= 4 MiB (+34 MiB with scrypt); with full reads, when more than two further chunks have been consumed the earlier chunk has been written (both directions, inline counters); every byte and the total length arrive intact; the same lag bound against sinks that buffer like BufWriter (bytes count only once flushed or spilled). Non-trivial = size >= 3 chunks; distinct by (size, mode, pattern)");
     ctx.assume("the harness objects allocate nothing during the measured calls, so thread-local heap figures are the library's alone");
     crate::core::HANG_LIMIT.store(if ctx.quick() { 300 } else { 3600 }, std::sync::atomic::Ordering::Relaxed);
     let _ = baseline(Mode::Key); let _ = baseline(Mode::Pass);
@@ -234,6 +283,9 @@ pub fn run(ctx: &Ctx) {
     { let mut hh = Vec::new(); for mode_pass in [false, true] { for keep in 0..4usize { for lf in [65537u32, 1 << 20, 1 << 27, 1 << 31, u32::MAX] { hh.push(super::c09::Case::HostileHeader { mode_pass, len_field: lf, flag: 0, body: 16, keep_records: keep }); } } }
       ctx.sse_vec("forged_length_fields", "a length field of 65537 .. 2^32-1 after 0..3 authentic 64 KiB records: heap and largest allocation stay at the honest level (shared with C09)", hh, super::c09::check); }
     ctx.sse_vec("data_after_final_chunk", "a complete file followed by 0 B .. 64 MiB of further input, both modes: decryption memory stays at the small-file level", [0u64, 1, 70_000, 1 << 20, 64 << 20].iter().flat_map(|&tail| [Mode::Key, Mode::Pass].map(move |mode| TailCase { tail, mode, seed: tail + 7 })).collect(), check_tail);
+    { let mut bc = Vec::new(); for decrypt in [false, true] { for pass in [false, true] { for cap in [8192usize, 1 << 20, 64 << 20] { for size in [0usize, 1, CS, 5 * CS, 20 * CS, 20 * CS + 7] { if pass && size != 20 * CS { continue; } bc.push(BufCase { size, pass, cap, decrypt, seed: (size + cap) as u64 }); } } } }
+      ctx.sse_vec("buffering_sinks", "sinks that hold bytes back until their 8 KiB / 1 MiB / 64 MiB buffer overflows or flush is called (BufWriter semantics): every chunk must still have reached the sink before more than two further chunks are consumed, and everything by the time the call returns", bc, check_buffered);
+      ctx.pbt("buffering_sinks_random", ctx.n(60, 600), || (0usize..40 * CS, any::<bool>(), prop_oneof![Just(8192usize), 1usize..(4 << 20), Just(usize::MAX / 2)], any::<bool>(), any::<u64>()).prop_map(|(size, decrypt, cap, p, seed)| BufCase { size, pass: p && seed % 8 == 0, cap, decrypt, seed }), check_buffered); }
     let pm = if ctx.quick() { 64 } else { 1024 };
     ctx.sse_vec("process_peak_rss", &format!("the binary on a sparse {} MiB file vs a 1 MiB file, both modes: peak RSS (GNU time) must not grow", pm), vec![ProcCase { mib: pm, pass_mode: false }, ProcCase { mib: pm, pass_mode: true }], check_process);
     ctx.sse_vec("process_read_ahead", "password encrypt / decrypt of an 8 MiB regular file with stdout a pipe nobody drains: input position (procfs) once the tool is blocked", vec![ReadAhead { decrypt: false }, ReadAhead { decrypt: true }], check_read_ahead);
